@@ -212,7 +212,8 @@ def name_class(name: str) -> str:
 QUERY_OPS = ["exists", "is_file", "is_dir", "is_symlink", "resolve", "checksum", "size"]
 FILE_SIZES_QUICK = [0, 0, 1, 2, 5, 17, 100, 513, 2049]
 FILE_SIZES_THOROUGH = FILE_SIZES_QUICK + [4097, 65535, 65536, 65537, 70001]
-CONTENT_KINDS = ["empty", "plain", "nl", "nl", "nlnl", "lead", "trail", "ws", "multi", "unicode", "shell", "json", "big"]
+CONTENT_KINDS = ["empty", "plain", "nl", "nl", "nlnl", "lead", "trail", "ws", "multi", "unicode", "unibig", "unibig", "shell", "json", "big"]
+BUFFER_SIZES = [64, 128, 1024, 65536, 65536]
 GLOB_KINDS = ["star", "star", "sub", "ext", "prefix", "q", "cls", "literal", "literal", "literal-sub", "dstar", "neg", "nomatch", "dot", "star-slash"]
 FILE_MODES = [0o644, 0o755, 0o600, 0o700, 0o444, 0o666, 0o777, 0o640]
 
@@ -226,8 +227,11 @@ def _tree(alpha: str, thorough: bool):
                                "c": st.sampled_from(["text", "textnl", "textnl"]), "x": st.sampled_from([0, 0, 1, 2, 3])})
     link = st.fixed_dictionaries({"k": st.just("l"), "n": nm, "p": par, "t": st.integers(0, 63),
                                   "dangling": st.sampled_from([False] * 4 + [True])})
+    hard = st.fixed_dictionaries({"n": nm, "p": par, "t": st.integers(0, 63)})
     return st.fixed_dictionaries({"alpha": st.just(alpha), "dangling": st.just(True),
-                                  "entries": st.lists(st.one_of(d, d, f, f, f, link), max_size=10 if thorough else 8)})
+                                  "entries": st.lists(st.one_of(d, d, f, f, f, link), max_size=10 if thorough else 8),
+                                  # extra hard-linked names of regular files of the tree (applied after the entries)
+                                  "hard": st.lists(hard, max_size=2)})
 
 
 def _target(nm, new: float, want: str = "any"):
@@ -276,14 +280,18 @@ def _ops(alpha: str, thorough: bool):
                                      "rel": st.booleans()})
     hardlink = st.fixed_dictionaries({"op": st.just("hardlink_to"), "t": _target(nm, 0.85), "to": _target(nm, 0.1, "file")})
     chmod = st.fixed_dictionaries({"op": st.just("chmod"), "t": _target(nm, 0.1), "mode": st.integers(0, len(FILE_MODES) - 1)})
-    one = st.one_of(*[query(o) for o in QUERY_OPS], mkdir(), mkdir(), write(), write(), read(), read(), globop(), globop(),
+    size_dir = st.fixed_dictionaries({"op": st.just("size"), "t": _target(nm, 0.0, "dir")})
+    usage = st.fixed_dictionaries({"op": st.just("usage"), "t": _target(nm, 0.0, "dir"),
+                                   "more": st.lists(_target(nm, 0.1), max_size=2)})
+    one = st.one_of(*[query(o) for o in QUERY_OPS], size_dir, usage, mkdir(), mkdir(), write(), write(), read(), read(), globop(), globop(),
                     walk(), walk(), rmtree, symlink, hardlink, chmod)
     return st.lists(one, min_size=1, max_size=25 if thorough else 15)
 
 
 def _machines(thorough: bool):
     def both(alpha):
-        return st.fixed_dictionaries({"alpha": st.just(alpha), "tree": _tree(alpha, thorough), "ops": _ops(alpha, thorough)})
+        return st.fixed_dictionaries({"alpha": st.just(alpha), "tree": _tree(alpha, thorough), "ops": _ops(alpha, thorough),
+                                      "buf": st.sampled_from(BUFFER_SIZES)})
 
     return st.one_of(both("plain"), both("hostile"), both("hostile"))
 
@@ -332,6 +340,10 @@ def make_content(desc: dict) -> str:
         return f"{base}\n\n{base[::-1]}\nlast"
     if k == "unicode":
         return "héllo 日本 \U0001f600 " + base + ["", "\n"][seed % 2]
+    if k == "unibig":
+        # 2-, 3- and 4-byte code points only: the encoded length (11 bytes per 4 characters) exceeds any small
+        # transfer buffer several times while the character count stays well below the byte count
+        return "\u00e9\u65e5\u672c\U0001f600" * max(8, n) + ["", "\n"][seed % 2]
     if k == "shell":
         return "$HOME `id` 'q' \"d\" \\ * ; # " + base + ["", "\n"][seed % 2]
     if k == "json":
@@ -460,6 +472,23 @@ def _force_rmtree(path: str) -> None:
                 os.chmod(p, 0o700)
     os.chmod(path, 0o700)
     shutil.rmtree(path)
+
+
+def _add_hard_links(root: str, hard: list) -> None:
+    for h in hard:
+        ents = listing(root)
+        files = [r for r, k in ents if k == "f"]
+        dirs = [""] + [r for r, k in ents if k == "d"]
+        if not files:
+            return
+        src = os.path.join(root, files[h["t"] % len(files)])
+        parent = dirs[h["p"] % len(dirs)]
+        dst = os.path.join(root, parent, h["n"]) if parent else os.path.join(root, h["n"])
+        if not os.path.lexists(dst):
+            try:
+                os.link(src, dst)
+            except OSError:
+                pass
 
 
 def has_link_below(path: str) -> bool:
@@ -822,6 +851,12 @@ async def _sut(env: _Env, driver: str, root: str, c: dict):
         return await (p.read_text() if c["n"] < 0 else p.read_text(n=c["n"]))
     if op == "size":
         return await p.size()
+    if op == "usage":
+        from streamflow.core.scheduling import Hardware, Storage
+        from streamflow.data.remotepath import get_storage_usages
+
+        hw = Hardware(cores=1.0, memory=1.0, storage={"k": Storage(mount_point=root, size=1.0, paths={root if r == "" else f"{root}/{r}" for r in c["rels"]})})
+        return dict(await get_storage_usages(env.ctx, loc, hw))
     if op == "checksum":
         return await p.checksum()
     if op == "resolve":
@@ -855,6 +890,8 @@ def _ref(root: str, c: dict):
     p = A(c["rel"])
     if op in ("exists", "is_file", "is_dir", "is_symlink", "size", "checksum", "rmtree"):
         return getattr(_Ref, op)(p)
+    if op == "usage":
+        return {"k": sum(_Ref.size(A(r)) for r in c["rels"])}
     if op == "mkdir":
         return _Ref.mkdir(p, c["mode"], c["parents"], c["exist_ok"])
     if op == "write_text":
@@ -1037,6 +1074,18 @@ def _concretise(rec: dict, root: str, entries) -> dict | None:
         c["pattern_literal"] = rec["pat"] in ("literal", "literal-sub")
     elif op == "walk":
         c.update(top_down=rec["top_down"], follow=rec["follow"], all=rec["all"])
+    elif op == "usage":
+        rels = [rel]
+        for t in rec.get("more", []):
+            r = _pick(t, root, entries, allow_root=False)
+            if r is not None and r not in rels:
+                rels.append(r)
+        # symlinks are counted differently by design of the two implementations (known finding of size()):
+        # storage usage is only compared over link-free paths
+        if any(has_link_below(os.path.join(root, r) if r else root) for r in rels):
+            return None
+        c["rels"] = rels
+        c["names"] = [r.rsplit("/", 1)[-1] for r in rels if r]
     elif op in ("symlink_to", "hardlink_to"):
         to = _pick(rec["to"], root, entries, allow_root=False)
         if to is None:
@@ -1375,6 +1424,10 @@ async def _machine(case: dict, rec, driver: str) -> None:
         desc = case["tree"]
         fs.materialize(desc, L)
         os.chmod(L, 0o755)
+        _add_hard_links(L, desc.get("hard", []))
+        if remote:
+            env.conn.transferBufferSize = int(case.get("buf", 65536))
+        rec.label(f"buf:{case.get('buf', 65536)}")
         clone(L, S)
         if snap(L) != snap(S):
             raise HarnessError("clone() did not reproduce the tree")
@@ -1435,7 +1488,7 @@ async def _machine(case: dict, rec, driver: str) -> None:
             changed = before != after
             if changed:
                 mutated = True
-            elif mutated and op in QUERY_OPS + ["read_text", "glob", "walk"]:
+            elif mutated and op in QUERY_OPS + ["read_text", "glob", "walk", "usage"]:
                 mut_then_query = True
             # ---- verdict for this step ----
             strays = env.box.strays() if remote else []
